@@ -25,41 +25,42 @@ def tmOf (s : State) (m : Minter) : TM.State :=
 /-- the token id the composite's position witness stands for -/
 def pickedId (m : Minter) (p : Nat) : Option Nat := lookupPos m.supply.pos p
 
-/-- composite op ↦ the aspect op (when the composite accepts it) -/
-def tmCore (s : State) (m : Minter) : Op → List TM.Op
-  | .setTime t => [.setTime t]
-  | .srcGive c id to => [.give c id to]
-  | .srcTransfer caller c id to => [.transfer caller c id to]
+/-- composite op ↦ the (extended) aspect op (when the composite accepts it) -/
+def tmCore (s : State) (m : Minter) : Op → List TM.OpX
+  | .setTime t => [.core (.setTime t)]
+  | .srcGive c id to => [.core (.give c id to)]
+  | .srcTransfer caller c id to => [.core (.transfer caller c id to)]
   | .send caller coll id contract recipient msgOk picked =>
-    [.send caller coll id contract recipient msgOk (pickedId m picked)]
-  | .receive caller sender id recipient msgOk picked => [.receive caller sender id recipient msgOk (pickedId m picked)]
-  | .mintTo sender _ rcpt picked => [.mintTo sender rcpt s.params.airdropMintPrice.amount true (pickedId m picked)]
-  | .mintFor sender _ id rcpt => [.mintFor sender id rcpt s.params.airdropMintPrice.amount true]
-  | .purge sender _ => [.purge sender true]
-  | .updateStartTime sender _ t => [.setStart sender t true]
-  | .updatePerAddressLimit sender _ n => [.setLimit sender n true]
-  | .burnRemaining sender _ => [.burnRemaining sender true]
-  | .updateStartTradingTime _ _ _ => [.noise true]
-  | .sudoStatus _ _ _ => [.noise true]
-  | .collTrading _ _ => [.noise true]
-  | .collCreator _ _ => [.noise true]
-  | .collFreeze _ => [.noise true]
-  | .collOwn _ _ => [.noise true]
+    [.core (.send caller coll id contract recipient msgOk (pickedId m picked))]
+  | .receive caller sender id recipient msgOk picked =>
+    [.core (.receive caller sender id recipient msgOk (pickedId m picked))]
+  | .mintTo sender _ rcpt picked => [.core (.mintTo sender rcpt s.params.airdropMintPrice.amount true (pickedId m picked))]
+  | .mintFor sender _ id rcpt => [.core (.mintFor sender id rcpt s.params.airdropMintPrice.amount true)]
+  | .purge sender _ => [.core (.purge sender true)]
+  | .updateStartTime sender _ t => [.core (.setStart sender t true)]
+  | .updatePerAddressLimit sender _ n => [.core (.setLimit sender n true)]
+  | .burnRemaining sender _ => [.core (.burnRemaining sender true)]
+  | .updateStartTradingTime _ _ _ => [.core (.noise true)]
+  | .sudoStatus _ _ _ => [.core (.noise true)]
+  | .collTrading _ _ => [.core (.noise true)]
+  | .collCreator _ _ => [.core (.noise true)]
+  | .collFreeze _ => [.core (.noise true)]
+  | .collOwn _ _ => [.core (.noise true)]
+  | .shuffle _ _ perm => [.shuffle true perm]
+  | .collTransfer sender id to => [.tgtTransfer sender id to true]
+  | .collBurn sender id => [.tgtBurn sender id true]
+  | .sudoParams u =>
+    match updateParams s.params u with
+    | .ok p => [.govern p.maxPerAddressLimit p.airdropMintPrice.amount true]
+    | .error _ => []
   | _ => []
 
 /-- forward simulation with stuttering: a rejected composite message is no aspect op -/
-def tmOps (s : State) (m : Minter) (op : Op) : List TM.Op := if accepted s op then tmCore s m op else []
+def tmOps (s : State) (m : Minter) (op : Op) : List TM.OpX := if accepted s op then tmCore s m op else []
 
-/-- the messages the aspect model has no counterpart for: a new source contract appearing (`colls` is fixed there), `Shuffle`
-(the aspect `mintable` is an ordered list that `.noise` cannot permute), holder transfers / burns in the minter's OWN collection
-(the aspect `tgtOwner` changes through mints only), and governance changing the two factory parameters frozen in the aspect state -/
-def TmQuiet (s : State) : Op → Prop
+/-- the ONE message kind the aspect model has no counterpart for: a new source contract appearing (`TM.State.colls` is fixed) -/
+def TmQuiet (_s : State) : Op → Prop
   | .srcNew _ => False
-  | .shuffle _ _ _ => False
-  | .collTransfer _ _ _ => False
-  | .collBurn _ _ => False
-  | .sudoParams u => ∀ p, updateParams s.params u = .ok p →
-      p.maxPerAddressLimit = s.params.maxPerAddressLimit ∧ p.airdropMintPrice.amount = s.params.airdropMintPrice.amount
   | _ => True
 
 theorem tmState_ext (a b : TM.State) (h1 : a.self = b.self) (h2 : a.admin = b.admin) (h3 : a.colls = b.colls)
@@ -149,5 +150,80 @@ theorem coll_mint_owner {c c' : Supply.Coll} {id o : Nat} (h : c.mint id o = som
     · subst hx; simp
     · have : ¬ id = x := fun e => hx e.symm
       simp [List.find?_cons, hx, this]
+
+theorem find_transfer (toks : List (Nat × Nat)) (id to x : Nat) :
+    ((toks.map (fun e => (e.1, if e.1 == id then to else e.2))).find? (fun e => e.1 == x)).map (·.2) =
+      if x = id then (toks.find? (fun e => e.1 == x)).map (fun _ => to) else (toks.find? (fun e => e.1 == x)).map (·.2) := by
+  induction toks with
+  | nil => simp
+  | cons e rest ih =>
+    by_cases he : e.1 = x
+    · by_cases hx : x = id
+      · simp [List.find?_cons, he, hx]
+      · simp [List.find?_cons, he, hx]
+    · have hb : (e.1 == x) = false := by simp [he]
+      simp only [List.map_cons, List.find?_cons, hb]
+      exact ih
+
+theorem find_burn (toks : List (Nat × Nat)) (id x : Nat) :
+    ((toks.filter (fun e => e.1 != id)).find? (fun e => e.1 == x)).map (·.2) =
+      if x = id then none else (toks.find? (fun e => e.1 == x)).map (·.2) := by
+  induction toks with
+  | nil => simp
+  | cons e rest ih =>
+    by_cases hid : e.1 = id
+    · have hf : (e :: rest).filter (fun e => e.1 != id) = rest.filter (fun e => e.1 != id) := by simp [List.filter_cons, hid]
+      rw [hf, ih]
+      by_cases hx : x = id
+      · simp [hx]
+      · have : ¬ e.1 = x := fun h => hx (h ▸ hid)
+        simp [hx, List.find?_cons, this]
+    · have hf : (e :: rest).filter (fun e => e.1 != id) = e :: rest.filter (fun e => e.1 != id) := by simp [List.filter_cons, hid]
+      rw [hf]
+      by_cases he : e.1 = x
+      · have hx : ¬ x = id := fun h => hid (he ▸ h)
+        simp [List.find?_cons, he, hx]
+      · have hb : (e.1 == x) = false := by simp [he]
+        simp only [List.find?_cons, hb]
+        exact ih
+
+/-- cw721 `transfer_nft` on the minter's own collection, as the aspect model's owner map -/
+theorem coll_transfer_owner {c c' : Supply.Coll} {id to : Nat} (h : c.transfer id to = some c') :
+    (fun x => c'.ownerOf x) = TM.upd1 (fun x => c.ownerOf x) id (some to) ∧ c'.count = c.count := by
+  unfold Supply.Coll.transfer at h
+  split at h
+  · rename_i hm
+    cases h
+    refine ⟨?_, rfl⟩
+    funext x
+    unfold TM.upd1 Supply.Coll.ownerOf
+    simp only
+    rw [find_transfer]
+    by_cases hx : x = id
+    · subst hx
+      simp only [if_true]
+      cases hf : c.toks.find? (fun e => e.1 == x) with
+      | some e => rfl
+      | none =>
+        exfalso
+        rw [List.find?_eq_none] at hf
+        simp only [Supply.Coll.ids, List.mem_map] at hm
+        obtain ⟨e, he, hex⟩ := hm
+        exact hf e he (by simp [hex])
+    · simp only [hx, if_false]
+  · cases h
+
+/-- cw721 `burn` on the minter's own collection -/
+theorem coll_burn_owner {c c' : Supply.Coll} {id : Nat} (h : c.burn id = some c') :
+    (fun x => c'.ownerOf x) = TM.upd1 (fun x => c.ownerOf x) id none ∧ c'.count = c.count - 1 := by
+  unfold Supply.Coll.burn at h
+  split at h
+  · cases h
+    refine ⟨?_, rfl⟩
+    funext x
+    unfold TM.upd1 Supply.Coll.ownerOf
+    simp only
+    rw [find_burn]
+  · cases h
 
 end LP.TMF
